@@ -58,6 +58,9 @@ var c02Patterns = []string{
 	`{"k!":"?x"}`,
 	`{"k":"LONG"}`,
 	`{"rule":"?r"}`,
+	// patterns that reach INTO a stored rule (the term index does not index rule bodies)
+	`{"rule":{"when":"?w"}}`,
+	`{"rule":{"action":{"code":"?c"}}}`,
 	`{"?p":"v"}`,
 	`{"?p":"?q"}`,
 	`{}`,
